@@ -3,7 +3,7 @@
    (live buffers pairwise distinct and disjoint from the pools, pooled buffers zero, pooled
    structs clean: Pool.inv_b) is evaluated on every step of every real operation sequence by
    the correspondence check — that part is validated, not yet proved (see DESIGN §6 C17). *)
-From Verif Require Import Prelude Gen Frame Pool PoolProofs.
+From Verif Require Import Prelude Gen Frame Pool PoolProofs PoolInv.
 
 (* Clone: identical bytes, parsed fields, addresses and receive link, in a different buffer;
    the source frame is untouched.  For every state, every pool choice. *)
@@ -66,3 +66,18 @@ Example C17_nonvacuous :
   | _ => False
   end.
 Proof. vm_compute. split; reflexivity. Qed.
+
+(* ---------- the ownership invariant, for every sequence of operations (PoolInv.v) ---------- *)
+(* After ANY sequence of new / parse / clone / reply / set-appendix / set-byte / release operations
+   on a shared builder, with any choice of which pooled buffer or pooled struct the pools hand
+   out: no two live frames share a pooled buffer, no live frame's buffer is in a pool, the pools
+   hold no buffer twice, every pooled buffer is all-zero, every pooled frame struct is clean, and
+   every buffer a live frame uses exists.  Isolation of clones and of released frames follows:
+   a write through one frame touches only that frame's buffer, which nobody else holds. *)
+Theorem C17_reachable_pool_inv : forall ops, pinv None (run_ops st_init ops).
+Proof. exact reachable_pool_inv. Qed.
+Print Assumptions C17_reachable_pool_inv.
+
+Theorem C17_step_inv : forall s o s' id, pinv None s -> step s o = Ok (s', id) -> pinv None s'.
+Proof. exact step_inv. Qed.
+Print Assumptions C17_step_inv.
